@@ -88,7 +88,10 @@ class World(object):
         self.falsy = falsy
         self.futs = [SpyFuture("fn")] + [SpyFuture("p%d" % i) for i in range(p)] + [SpyFuture("k%d" % i) for i in range(q)]
         given = [Facade(f) for f in self.futs] if facade else list(self.futs)
-        if derived:
+        if derived == "proxy":
+            # the inputs come from f_proxy (their unknown attributes are forwarded to the result)
+            given = [F.f_proxy(f) for f in self.futs]
+        elif derived:
             # the inputs are futures of this library (outputs of f_map) on which the user had already put a
             # done-callback of their own - one that raises
             given = [F.f_map(f, lambda v: v) for f in self.futs]
@@ -170,15 +173,16 @@ def run_order(case, res):
             rng.shuffle(base)
             orders.append(tuple(base))
     variants = ([("ok", None)] + [("fail", i) for i in range(n)] + [("fail_fn", None)] + [("fail_falsy", i) for i in range(n)]
-                + [("facade", None)] + [("facade_fail", n - 1)] + [("derived", None)] + [("derived_fail", n - 1)])
+                + [("facade", None)] + [("facade_fail", n - 1)] + [("derived", None)] + [("derived_fail", n - 1)]
+                + [("proxy", None)] + [("proxy_fail", i) for i in range(n)])
     for order in orders:
         for kind, pos in (variants if len(orders) <= 24 else [variants[rng.randrange(len(variants))], ("ok", None)]):
             begin("rt")
             ctx = Ctx()
             try:
-                failing = kind in ("fail", "fail_falsy", "facade_fail", "derived_fail")
+                failing = kind in ("fail", "fail_falsy", "facade_fail", "derived_fail", "proxy_fail")
                 w = World(p, q, fail_fn=(kind == "fail_fn"), falsy=(kind == "fail_falsy"), facade=kind.startswith("facade"),
-                          derived=kind.startswith("derived"))
+                          derived=("proxy" if kind.startswith("proxy") else kind.startswith("derived")))
                 # fn must not run before the last input resolves
                 for step, i in enumerate(order):
                     w.complete(i, fail=(failing and i == pos))
